@@ -9,7 +9,7 @@ from ..core import CaseTimeout, case_timeout
 from ..gen_expr import GLOB, Gen, datasets
 from ..refeval import evaluate
 
-N_CASES = {"quick": 350, "thorough": 375000}
+N_CASES = {"quick": 1000, "thorough": 375000}
 TIME_BUDGET = {"quick": 60, "thorough": 270}
 META = {
     "rule": "generated queries with every operator call independently in method or function form at all depths "
